@@ -12,10 +12,11 @@ bodies and media across the stacks, non-ASCII and percent-encoded paths -- is ex
     HTTPError / HTTPStatus / redirect / crash).
   * FOUR drivers for one abstract HTTP request: a minimal WSGI server written from PEP 3333, a minimal ASGI HTTP
     server written from the ASGI HTTP connection-scope specification, falcon.testing.simulate_request on the WSGI
-    app and falcon.testing.simulate_request on the ASGI app.
+    app and falcon.testing.simulate_request on the ASGI app (every 4th case also ASGIConductor.simulate_request).
   * THREE comparisons: WSGI spec driver == ASGI spec driver (stack equivalence); simulate_request(wsgi) == WSGI
     spec driver and simulate_request(asgi) == ASGI spec driver (test-client faithfulness; here also the environ /
-    scope handed to the app and the public view of the Result object are compared).
+    scope handed to the app, well-formedness of the request / response events and the public view of the Result
+    object are compared).  Each comparison is returned as one stand-in (the conductor as a fourth).
 
 Divergences that are by design are normalised narrowly (BY_DESIGN, each applied at one marked place); genuine
 divergences found on the unchanged tree are NOT hidden: they are classified by a stable key (KNOWN) and reported in
@@ -125,13 +126,16 @@ ASSUMPTIONS = [
     'repeated header lines are generated only for list-valued fields: for singleton fields (falcon.constants.SINGLETON_HEADERS) WSGI servers differ among '
     'themselves and falcon.asgi keeps the last occurrence (NOTE in asgi/request.py); header names with "_" are not generated (PEP 3333 cannot tell X_A from X-A)',
 ]
+NOT_DECIDED = [
+    'the bounded stand-in C06_differential does not exercise: simulate_request(params= / params_csv= / extras= / file_wrapper= / str bodies), the simulate_<method> '
+    'aliases and TestClient default headers, streamed results (simulate_get_stream), WebSocket and SSE, middleware and error handlers/serializers registered by '
+    'the application, chunked transfer coding, repeated singleton header lines, header names with "_", Content-Length values that disagree with the body',
+]
 TRUSTED = [
     'the two spec drivers _drive_wsgi / _drive_asgi, the translation of an abstract request into simulate_request keyword arguments (_sim_kwargs) and the '
     'observation taps in contracts/C06_differential.py',
 ]
 
-# (file, old, new, what failed) -- documentation of the self-test of this stand-in (each edit applied alone to a scratch copy; quick tier, seed 0)
-KILLS_BOUNDED = []  # filled in below (end of file)
 
 _UA = None  # 'falcon-client/<version>', set in _setup
 _CTX = {}
@@ -1549,8 +1553,14 @@ def bounded(tier, seed, overlay_dir):
                 'all 8 request-option combinations' if tier == 'thorough' else 'one of two request-option combinations (none set / all three set, alternating)',
                 n_rand, seed, nproc))
     out = []
+    kdesc = {k['key']: k for k in KNOWN}
     for pair, name in _PAIR_NAMES.items():
         b = by[pair]
+        # a divergence class of the catalogue is a FAILURE of this stand-in like any other, under the stable obligation id 'C06.bounded#<key>':
+        # whether it is a recorded finding (KNOWN-FINDING line, exit 0) or a violation is decided by /verif/known_findings.json, not here
+        for k in sorted(b['known']):
+            b['failures'].append({'obligation': 'C06.bounded#%s' % k, 'pair': pair, 'divergence_class': k, 'cases_in_this_run': b['known'][k],
+                                  'what': kdesc[k]['what'], 'witness': kdesc[k]['witness']})
         rec = {'name': name, 'bound': bound + ('' if pair == 'stack' else '; %d cases not expressible as simulate_request arguments (no Host line on HTTP/1.1, empty path) skipped'
                                                % b['skipped']),
                'cases': b['cases'], 'skipped': b['skipped'], 'failures': b['failures'], 'failing_cases': b['n_fail'], 'failing_by_obligation': b['by_ob'], 'known': sorted(b['known']), 'known_counts': b['known'],
@@ -1561,6 +1571,75 @@ def bounded(tier, seed, overlay_dir):
         out.append(rec)
     return out
 
+
+# (file, old, new, what failed) -- documentation of the self-test of this stand-in: each edit applied ALONE to a scratch copy of the sources and
+# `bounded('quick', 0, <scratch>)` run on it (2026-10-01); every edit produced failures, the last one (a harmless refactoring) none
+KILLS_BOUNDED = [
+    ('falcon/testing/helpers.py', '    raw_path = path\n    path = uri.decode(path, unquote_plus=False)\n', '    raw_path = path\n',
+     'wsgi-client: raw.PATH_INFO (2790 cases), status (134)'),
+    ('falcon/testing/helpers.py', "    if content_length != 0:\n        env['CONTENT_LENGTH'] = str(content_length)\n", "    if content_length is not None:\n        env['CONTENT_LENGTH'] = str(content_length)\n",
+     'wsgi-client: raw.CONTENT_LENGTH (10695 cases)'),
+    ('falcon/testing/helpers.py', "        else:\n            if port_str != '80':\n                host_header += ':' + port_str\n\n        env['HTTP_HOST'] = host_header\n", "        env['HTTP_HOST'] = host_header\n",
+     'wsgi-client: raw.HTTP_* [HTTP_HOST] (230 cases)'),
+    ('falcon/testing/helpers.py', "            n = name.lower().encode('latin1')\n", "            n = name.encode('latin1')\n",
+     'asgi-client + conductor: protocol "scope header name is not lower-cased" (8027 cases)'),
+    ('falcon/testing/helpers.py', "        'query_string': query_string_bytes,\n", "        'query_string': query_string,\n",
+     'asgi-client + conductor: raise (TypeError from create_scope, every case)'),
+    ('falcon/testing/helpers.py', "        'raw_path': raw_path.encode(),\n", '',
+     'asgi-client + conductor: raw.raw_path (every case)'),
+    ('falcon/testing/helpers.py', "    raw_path, _, _ = path.partition('?')\n    path = uri.decode(path, unquote_plus=False)\n", "    raw_path, _, _ = path.partition('?')\n    path = uri.decode(path, unquote_plus=True)\n",
+     'asgi-client: raw.path (100 cases: paths with "+")'),
+    ('falcon/asgi/app.py', "            resp._headers['content-length'] = str(len(data))\n\n            await send(\n", "            resp._headers['content-length'] = str(len(data) + 1)\n\n            await send(\n",
+     'stack: headers [content-length] (11409 cases)'),
+    ('falcon/asgi/app.py', "                                'body': data,\n                                'more_body': True,\n", "                                'body': data,\n                                'more_body': False,\n",
+     'stack: protocol "send after the final body event" / body (317 cases)'),
+    ('falcon/asgi/response.py', "        if self._extra_headers:\n            items += [\n                (n.encode('ascii'), v.encode('ascii')) for n, v in self._extra_headers\n            ]\n", '',
+     'stack: headers [set-cookie from append_header] (778 cases)'),
+    ('falcon/asgi/app.py', "        stream = resp.stream\n        if not stream:\n            resp._headers['content-length'] = '0'\n", '        stream = resp.stream\n',
+     'stack: headers [content-length: 0 missing] (571 cases)'),
+    ('falcon/app.py', '        return [], 0\n', '        return [], None\n',
+     'stack: headers [content-length: 0 missing on WSGI] (594 cases)'),
+    ('falcon/asgi/request.py', "            else:\n                if port != 80:\n                    netloc_value = f'{netloc_value}:{port}'\n\n        return netloc_value\n", "            else:\n                if port != 8080:\n                    netloc_value = f'{netloc_value}:{port}'\n\n        return netloc_value\n",
+     'stack: digest.netloc (311 cases)'),
+    ('falcon/asgi/request.py', "        try:\n            return self.scope['root_path']\n        except KeyError:\n            pass\n\n        return ''\n", "        return ''\n",
+     'stack: digest.uri / root_path / prefix (1161 cases)'),
+    ('falcon/testing/helpers.py', '        self._body = self._body[self._chunk_size :] or None\n', '        self._body = self._body[self._chunk_size :][:-1] or None\n',
+     'asgi-client + conductor: digest.body / digest.media / digest.body_tail, status (1571 cases)'),
+    ('falcon/testing/helpers.py', "                self.headers.append((name_decoded, value.decode('latin1')))\n", "                self.headers.append((name_decoded, value.decode('utf-8', 'replace')))\n",
+     'asgi-client: result_view [latin-1 header value of Result.headers] (995 cases)'),
+    ('falcon/testing/helpers.py', "            self.body_chunks.append(chunk)\n\n            self.more_body = event.get('more_body', False)\n", "            self.more_body = event.get('more_body', False)\n            if self.more_body:\n                self.body_chunks.append(chunk)\n",
+     'asgi-client + conductor: result_view [Result.content misses the final chunk] (10934 cases)'),
+    ('falcon/request.py', "        if not path.isascii():\n            path = path.encode('iso-8859-1').decode('utf-8', 'replace')\n", "        if not path.isascii():\n            path = path.encode('iso-8859-1').decode('utf-8', 'ignore')\n",
+     'stack and wsgi-client: digest.route_params / digest.path / status (542 + 525 cases)'),
+    ('falcon/testing/helpers.py', "    if remote_addr:\n        env['REMOTE_ADDR'] = remote_addr\n", '',
+     'wsgi-client: raw.REMOTE_ADDR (2382 cases)'),
+    ('falcon/testing/helpers.py', "        if (scheme or 'http') in {'http', 'ws'}:\n            port = 80\n        else:\n            port = 443\n", '        port = 80\n',
+     'asgi-client: raw.headers [host line gets :443] (546 cases)'),
+    ('falcon/testing/client.py', '        remote_addr=remote_addr,\n        root_path=root_path,\n        content_length=content_length,\n', '        remote_addr=remote_addr,\n        content_length=content_length,\n',
+     'asgi-client: raw.root_path (1757 cases)'),
+    ('falcon/app.py', "        if req.method == 'HEAD' or resp_status_code in _BODILESS_STATUS_CODES:\n            body = []\n", '        if resp_status_code in _BODILESS_STATUS_CODES:\n            body = []\n',
+     'stack: body / headers / closed on HEAD (1872 cases)'),
+    ('falcon/asgi/app.py', "                resp._headers['content-length'] = str(len(data)) if data else '0'\n", "                resp._headers['content-length'] = str(len(data)) if data else '1'\n",
+     'stack: headers [content-length of HEAD] (486 cases)'),
+    ('falcon/testing/client.py', "        path, query_string = path.split('?', 1)\n", "        path, query_string = path.split('?', 1)[0], ''\n",
+     'wsgi-client raw.QUERY_STRING (765), asgi-client raw.query_string (775)'),
+    ('falcon/testing/helpers.py', "    if scheme:\n        if scheme not in {'http', 'https', 'ws', 'wss'}:", "    if scheme and scheme != 'https':\n        if scheme not in {'http', 'https', 'ws', 'wss'}:",
+     'asgi-client: raw.scheme (1063 cases)'),
+    ('falcon/testing/helpers.py', "            if name_wsgi not in env or name.lower() in SINGLETON_HEADERS:\n                env[name_wsgi] = value\n            else:\n                env[name_wsgi] += ',' + value\n", '            env[name_wsgi] = value\n',
+     'wsgi-client: raw.HTTP_* [repeated lines not folded] (736 cases)'),
+    ('falcon/testing/helpers.py', "            v = b'' if value is None else value.strip().encode('latin1')\n", "            v = b'' if value is None else value.strip().encode('utf-8')\n",
+     'asgi-client: raw.headers [latin-1 value sent as UTF-8] (424 cases)'),
+    ('falcon/asgi/request.py', "                req_headers[header_name] += b',' + header_value\n", "                req_headers[header_name] += b', ' + header_value\n",
+     'stack: digest.headers [folding with ", "] (519 cases)'),
+    ('falcon/testing/helpers.py', "        'method': method.upper(),\n        'path': path,\n", "        'method': method.upper(),\n        'path': raw_path,\n",
+     'asgi-client: raw.path (2949 cases)'),
+    ('falcon/testing/helpers.py', "        'SCRIPT_NAME': (root_path or ''),\n", "        'SCRIPT_NAME': '',\n",
+     'wsgi-client: raw.SCRIPT_NAME (1730 cases)'),
+    ('falcon/testing/client.py', '        body = json_module.dumps(json, ensure_ascii=False)\n', '        body = json_module.dumps(json)\n',
+     'wsgi-client raw.CONTENT_LENGTH (14), asgi-client protocol / raw.headers (14): json= body with non-ASCII text'),
+    ('falcon/testing/helpers.py', "    root_path = root_path or app or ''\n", '    root_path = root_path or app or str()\n',
+     'nothing (harmless refactoring: stays green)'),
+]
 
 if __name__ == '__main__':
     _ov = sys.argv[1]
